@@ -327,11 +327,11 @@ def build_plan(tier, seed):
     take(fam_exh1(), 1.0)
     take(fam_exh2(), 0.05 if quick else 1.0)
     take(fam_prefix((2,)), 1.0)
-    take(fam_prefix((3,)), 0.1 if quick else 1.0)
-    take(fam_prefix((4,)), 0.0 if quick else 0.05)
-    take(fam_rollback(), 0.1 if quick else 1.0)
-    take(fam_nested3(), 0.03 if quick else 0.5)
-    nrand = 2000 if quick else 30000
+    take(fam_prefix((3,)), 0.1 if quick else 0.6)
+    take(fam_prefix((4,)), 0.0 if quick else 0.03)
+    take(fam_rollback(), 0.1 if quick else 0.7)
+    take(fam_nested3(), 0.03 if quick else 0.25)
+    nrand = 2000 if quick else 20000
     r2 = random.Random(seed * 7777 + 5)
     for _ in range(nrand):
         plan.append(random_grammar(r2))
